@@ -5,7 +5,7 @@ VERIF = os.path.dirname(os.path.dirname(os.path.abspath(__file__)))
 
 # id -> (technique, level text, level note, design ref)   -- only properties whose check exists
 CHECKS = {
- "C01": ("bounded exhaustive exploration of every entry point for panics/hangs: all byte strings <=5 (7) over 12 structural symbols, every 1-byte mutation of ~45 seed sentences, complete grammar product (15 M lines), explicit-state BFS of the real AisParser to closure over a 116-letter alphabet incl. invalid numbering and oversized fragments, all histories <=4 (5), 255-fragment chains, group sizes up to 255 with every single deviation, 600-line soak scripts, unarmor over all strings <=2 (3) and 1-deviation at every length <=96/around 384/512/1000, messages::parse over 64 types x every length 0..132 x single-bit balls; three builds, checked profile (thorough: also plain release)",
+ "C01": ("bounded exhaustive exploration of every entry point for panics/hangs: all byte strings <=5 (7) over 12 structural symbols, every 1-byte mutation of ~45 seed sentences, complete grammar product (15 M lines), explicit-state BFS of the real AisParser to closure over a 116-letter alphabet incl. invalid numbering and oversized fragments, all histories <=4 (5), 255-fragment chains, group sizes up to 255 with every single deviation, 600-line soak scripts, 200 000-line (1 000 000) soak scripts and scenarios straddling the 2^8-th / 2^16-th (2^17, 2^20) line, sentence, error, group or delivery at every alignment (ASM-SOAK-LONG, ASM-WRAP), unarmor over all strings <=2 (3) and 1-deviation at every length <=96/around 384/512/1000, messages::parse over 64 types x every length 0..132 x single-bit balls; three builds, checked profile (thorough: also plain release)",
          "Every case of the listed finite spaces is executed on the real crate under catch_unwind with overflow checks and debug assertions on, in each of the three feature configurations; a watchdog turns a non-returning case into a violation. The reassembly state machine is explored to closure (its reachable state set is finite for a finite alphabet), so histories of unbounded length over that alphabet are covered.",
          "Exhaustive within the listed spaces only (byte strings beyond two deviations from a valid sentence and longer than 7 arbitrary bytes are outside); allocation failure and stack overflow are not provoked.", "DESIGN.md §3, §4 C01"),
  "C02": ("bounded exhaustive input enumeration vs. reference recogniser + explicit-state exploration: all 256 transmitted checksums x 8 spellings (incl. values > 0xFF, > 8 digits) x seeds; every field slot replaced by every string <=3 (4) over the structural alphabet with the checksum recomputed; every single-byte corruption (delete / replace by 256 values / insert 256 values) at every position of ~45 seeds; field-level edits; (thorough) every pair of positions x 16^2 bytes; bad-checksum letters in every reachable parser state",
@@ -17,10 +17,10 @@ CHECKS = {
  "C04": ("bounded exhaustive payload enumeration vs. table-driven ITU-R M.1371 reference decoder: Hamming ball r<=2 around 4 base patterns of 47 layout variants; all 2^w values x 16 neighbour contexts of every integer/flag/id field (w<=14 quick, <=20 thorough); every PAIR of fields x 7x7 boundary values; 256 dense fillings per layout x every single-bit deviation; wide fields: all values within distance 3 of anchors + all 2^18 high/low settings (thorough: complete 2^30 sweeps of MMSI (types 1, 24B), IMO number, destination MMSI); same payloads through the sentence path with every fill count; std and no-allocator builds",
          "A field read one bit early, a width off by one, two swapped fields or a missed spare changes the decode of at least one weight-1/weight-2 payload; 'independently of the neighbours' is the neighbour-context product. The reference tables are written from the standard, not from the crate, and every decoded field is compared by name.",
          "The joint space of a whole message (2^168) is outside: payloads differing from every base pattern in >2 bits and in >1 field at once are not enumerated; 30-bit fields other than the source MMSI are swept in 2x18 of their bits.", "DESIGN.md §2.4, §3.4, §4 C04"),
- "C05": ("bounded exhaustive history enumeration (differential oracle) + explicit-state exploration: one decodable payload per layout x every 2-split, every 3-split (<=34 / <=80 chars), every composition of a 12-char payload into 2..9 parts x 7 ids x 5 prior histories x 5 noise patterns x decode; BFS of the real parser to closure with a reference monitor as step oracle; 255-fragment chains",
+ "C05": ("bounded exhaustive history enumeration (differential oracle) + explicit-state exploration: one decodable payload per layout x every 2-split, every 3-split (<=34 / <=80 chars), every composition of a 12-char payload into 2..9 parts x 7 ids x 5 prior histories x 5 noise patterns x decode; BFS of the real parser to closure with a reference monitor as step oracle; 255-fragment chains; 200 000-line (1 000 000) soak scripts and scenarios straddling the 2^8-th / 2^16-th (2^17, 2^20) line, sentence, error, group or delivery at every alignment (ASM-SOAK-LONG, ASM-WRAP)",
          "Each fragmented transmission is compared with the same payload sent unfragmented to a fresh parser (payload bytes, decoded message, error class), every non-final result must be Incomplete with its own fields, and Into<Option>/Into<Result> are checked on lock-stepped parsers; the BFS covers 'whatever the parser processed before' to closure over its alphabet.",
          "Payload content is opaque to reassembly (checked by a one-deviation sweep); groups of >9 fragments only in order (255-chain).", "DESIGN.md §2.2, §3.2, §4 C05"),
- "C06": ("explicit-state model checking of the real AisParser: BFS to closure over an 87-letter alphabet (n in 2..5, every k, 5 sequence ids, decodable / undecodable / rejected lines) with state = (parser Debug, reference monitor), run twice; plus every history of length <=5 (6) over a 22-letter core alphabet judged by the C06 statement itself (no monitor); 255-fragment u8-boundary chains, group sizes up to 255 x 10 ids with every single deviation, all 257^2 id pairs, 600-line soak scripts; plus a TLA+ model (models/Reassembly.tla) verified by TLC against the C06 history predicate, ALL of whose maximal behaviours (12^4 quick / 12^5 thorough) are replayed on the real parser in each build (trace conformance)",
+ "C06": ("explicit-state model checking of the real AisParser: BFS to closure over an 87-letter alphabet (n in 2..5, every k, 5 sequence ids, decodable / undecodable / rejected lines) with state = (parser Debug, reference monitor), run twice; plus every history of length <=5 (6) over a 22-letter core alphabet judged by the C06 statement itself (no monitor); 255-fragment u8-boundary chains, group sizes up to 255 x 10 ids with every single deviation, all 257^2 id pairs, 600-line soak scripts, 200 000-line (1 000 000) soak scripts and scenarios straddling the 2^8-th / 2^16-th (2^17, 2^20) line, sentence, error, group or delivery at every alignment (ASM-SOAK-LONG, ASM-WRAP); plus a TLA+ model (models/Reassembly.tla) verified by TLC against the C06 history predicate, ALL of whose maximal behaviours (12^4 quick / 12^5 thorough) are replayed on the real parser in each build (trace conformance)",
          "The reachable state set is finite for a finite alphabet, so closure means every finite history over the alphabet is covered; every transition is executed on a real parser re-driven along the shortest witness history. The history predicate shares no code with the monitor and validates it on every history up to the depth bound.",
          "Letters outside the alphabet (other ids, n>5 except the directed 255-chain) are not explored; the monitor is mine.", "DESIGN.md §2.2, §3.2, §4 C06"),
  "C07": ("bounded exhaustive input enumeration vs. reference field extractor: complete grammar product (15 M lines; thorough 100+ M), every field slot replaced by every short string over the structural alphabet, explicit-state BFS of the real parser (payload of a completed group = concatenation), all 65536 talker byte pairs, all report-type triples over a 27-byte alphabet (thorough: all 2^24), every accepted single-byte mutant of ~45 seeds, all 256 first payload bytes; decode on/off differential",
@@ -53,7 +53,7 @@ CHECKS = {
  "C16": ("complete enumeration of all 2^19 communication states in types 1, 2, 3, 4, 11 and all 2^20 (selector + state) in types 9 and 18, each in two surrounding contexts, vs. the ITU SOTDMA/ITDMA rules",
          "Every state value is decoded by the real crate and compared field by field (sync, time-out, sub-message kind and value / increment, slots, keep) with the reference rules.",
          "Known finding: type 9 reads the state one bit early (recognised by its exact signature; any other deviation in type 9 is still reported). U2: UTC minute with bit 8 set accepts the 6- or 7-bit reading.", "DESIGN.md §4 C16, §6 D6"),
- "C17": ("explicit-state model checking + metamorphic history enumeration: BFS of the real parser to closure over a 116-letter extended alphabet (invalid numbering, oversized and non-armoring fragments) checking that every rejected / unfragmented line leaves the state unchanged (Debug equality, falling back to behavioural comparison over all continuations <=2 / core continuations of length 3); every history <=5 (6) with every removable line deleted; two parser objects under ALL interleavings of two streams <=3 letters",
+ "C17": ("explicit-state model checking + metamorphic history enumeration: BFS of the real parser to closure over a 116-letter extended alphabet (invalid numbering, oversized and non-armoring fragments) checking that every rejected / unfragmented line leaves the state unchanged (Debug equality, falling back to behavioural comparison over all continuations <=2 / core continuations of length 3); every history <=5 (6) with every removable line deleted; two parser objects under ALL interleavings of two streams <=3 letters; 200 000-line (1 000 000) soak scripts and scenarios straddling the 2^8-th / 2^16-th (2^17, 2^20) line, sentence, error, group or delivery at every alignment (ASM-SOAK-LONG, ASM-WRAP) with all rejected / unfragmented lines deleted (metamorphic)",
          "Inductive form (state unchanged in every reachable state), metamorphic form (removing the line changes no other result, on every history up to the bound) and instance independence (each parser equals its solo run under every interleaving).",
          "Alphabet- and depth-bounded as stated.", "DESIGN.md §3.2, §4 C17"),
  "C18": ("differential bounded exhaustive enumeration across the three builds: the line, reassembly, unarmor and message spaces are run in std, alloc and no-allocator builds and per-4096-case digests of the canonical outcomes are compared; inputs beyond a documented capacity are tokenised in all builds and must be Err (or an untruncated Ok) without an allocator; explicit-state exploration with the capacity-aware monitor in each build",
